@@ -956,3 +956,197 @@ Section Top.
     c_id c = c_id c' -> a = a' /\ n = n'.
   Proof. destruct CF_main as (_ & _ & C). exact C. Qed.
 End Top.
+
+(* ------------------------------------------------------------------ every file is read once *)
+Lemma NoDup_snoc {A} (l : list A) x : NoDup l -> ~ In x l -> NoDup (l ++ [x]).
+Proof.
+  induction l as [|a l IH]; intros Hnd Hx; cbn [app].
+  - constructor; [intros [] | constructor].
+  - inversion Hnd; subst. constructor.
+    + intro Hin. apply in_app_or in Hin as [Hin|[Hin|[]]]; [contradiction | subst; apply Hx; left; reflexivity].
+    + apply IH; [assumption | intro; apply Hx; right; assumption].
+Qed.
+
+Section Once.
+  Variable fs : list (list N * gfile).
+
+  Definition NL (s : st) : Prop := NoDup (loads s) /\ forall a, In a (loads s) -> has_ns s a = true.
+
+  Lemma NL_same s s' : loads s' = loads s -> (forall k, has_ns s' k = has_ns s k) -> NL s -> NL s'.
+  Proof. intros Hl Hn [A B]. split; [rewrite Hl; exact A|]. intros a Ha. rewrite Hn. apply B. rewrite <- Hl. exact Ha. Qed.
+
+  Lemma has_ns_spaces s s' : spaces s' = spaces s -> forall k, has_ns s' k = has_ns s k.
+  Proof. intros H k. unfold has_ns. rewrite H. reflexivity. Qed.
+
+  Lemma NL_second ns f s : NL s -> NL (second_pass ns f s).
+  Proof.
+    intro H. destruct (serr s) eqn:He.
+    - rewrite second_pass_err by (rewrite He; discriminate). exact H.
+    - destruct (second_pass_cases ns f s He) as [[e ->]|[-> _]];
+        (apply (NL_same s); [reflexivity | apply has_ns_spaces; reflexivity | exact H]).
+  Qed.
+
+  Lemma NL_classes ns rs : forall s, NL s -> NL (fold_left (fun s r => new_class ns r s) rs s).
+  Proof.
+    induction rs as [|r rs IH]; intros s H; cbn [fold_left]; [exact H|]. apply IH.
+    apply (NL_same s); [|intro k; apply has_ns_new_class | exact H].
+    unfold new_class. destruct (has_err s); reflexivity.
+  Qed.
+
+  Definition OnceSpec (fuel : nat) : Prop := forall stk ns s,
+    NL s -> ~ In ns (loads s) -> has_ns s ns = true -> NL (load fuel fs stk ns s).
+
+  Lemma NL_import fuel stk cur imp t : OnceSpec fuel -> NL t ->
+    NL (new_import (load fuel fs stk) stk cur imp t).
+  Proof.
+    intros IH H. unfold new_import. destruct (has_err t); [exact H|].
+    set (a := abs_import cur imp).
+    destruct (has_ns t a) eqn:Ha.
+    - set (s1 := if mem_str a stk then note_back cur a t else t).
+      assert (H1 : NL s1) by (unfold s1; destruct (mem_str a stk); [apply (NL_same t); [reflexivity | apply has_ns_spaces; reflexivity | exact H] | exact H]).
+      destruct (has_err s1); [exact H1|]. apply (NL_same s1); [reflexivity | apply has_ns_spaces; reflexivity | exact H1].
+    - assert (H1 : NL (load fuel fs stk a (enter a t))).
+      { apply IH.
+        - destruct H as [A B]. split; [exact A|]. intros x Hx. rewrite has_ns_enter, (B x Hx). reflexivity.
+        - intro Hin. destruct H as [_ B]. cbn [loads enter] in Hin. rewrite (B a Hin) in Ha. discriminate.
+        - rewrite has_ns_enter, str_eqb_refl. apply orb_true_r. }
+      destruct (has_err _); [exact H1|]. apply (NL_same (load fuel fs stk a (enter a t))); [reflexivity | apply has_ns_spaces; reflexivity | exact H1].
+  Qed.
+
+  Lemma NL_imports fuel stk cur imps : OnceSpec fuel -> forall t, NL t ->
+    NL (fold_left (fun s imp => new_import (load fuel fs stk) stk cur imp s) imps t).
+  Proof.
+    intro IH. induction imps as [|i imps IHi]; intros t H; cbn [fold_left]; [exact H|].
+    apply IHi. apply NL_import; assumption.
+  Qed.
+
+  Lemma load_once : forall fuel, OnceSpec fuel.
+  Proof.
+    induction fuel as [|fuel IH]; intros stk ns s H Hfresh Hns; cbn [load];
+      (destruct (has_err s); [exact H|]);
+      (destruct (aget ns fs) as [f|]; [|apply (NL_same s); [reflexivity | apply has_ns_spaces; reflexivity | exact H]]).
+    - apply (NL_same s); [reflexivity | apply has_ns_spaces; reflexivity | exact H].
+    - cbv zeta. apply NL_second. apply NL_classes. apply NL_imports; [exact IH|].
+      destruct H as [A B]. split.
+      + cbn [loads log_load]. apply NoDup_snoc; assumption.
+      + intros a Ha. cbn [loads log_load] in Ha. change (has_ns s a = true).
+        apply in_app_or in Ha as [Ha|[<-|[]]]; [apply B; exact Ha | exact Hns].
+  Qed.
+
+  Lemma loads_once main : main <> BASE -> NoDup (loads (load_main fs main)).
+  Proof.
+    intro Hm. unfold load_main. apply load_once.
+    - split; [constructor | intros a []].
+    - intros [].
+    - rewrite has_ns_enter, str_eqb_refl. apply orb_true_r.
+  Qed.
+End Once.
+
+(* ------------------------------------------------------------------ loading terminates *)
+Section Term.
+  Variable fs : list (list N * gfile).
+
+  Definition unl_in (l : list (list N * gfile)) (s : st) : nat :=
+    length (filter (fun p => negb (has_ns s (fst p))) l).
+  Definition unl (s : st) : nat := unl_in fs s.
+
+  Lemma unl_mono l s t : (forall k, has_ns s k = true -> has_ns t k = true) -> unl_in l t <= unl_in l s.
+  Proof.
+    intro H. unfold unl_in. induction l as [|[k v] l IH]; cbn [filter fst]; [lia|].
+    destruct (has_ns s k) eqn:E.
+    - rewrite (H k E). cbn [negb]. exact IH.
+    - cbn [negb]. destruct (has_ns t k); cbn [negb length]; lia.
+  Qed.
+
+  Lemma unl_strict l s t a f : (forall k, has_ns s k = true -> has_ns t k = true) ->
+    aget a l = Some f -> has_ns s a = false -> has_ns t a = true -> unl_in l t < unl_in l s.
+  Proof.
+    intros H Hf Hs Ht. unfold unl_in. induction l as [|[k v] l IH]; cbn [aget] in Hf; [discriminate|].
+    cbn [filter fst]. destruct (str_eqb a k) eqn:E.
+    - apply str_eqb_eq in E. subst k. rewrite Hs, Ht. cbn [negb length].
+      pose proof (unl_mono l s t H) as M. unfold unl_in in M. lia.
+    - specialize (IH Hf). destruct (has_ns s k) eqn:Ek.
+      + rewrite (H k Ek). cbn [negb]. exact IH.
+      + cbn [negb]. destruct (has_ns t k); cbn [negb length]; lia.
+  Qed.
+
+  Definition NF (s : st) : Prop := serr s <> Some EFuel.
+  Definition TermSpec (fuel : nat) : Prop := forall stk ns s, NF s -> unl s < fuel -> NF (load fuel fs stk ns s).
+
+  Lemma NF_same s s' : serr s' = serr s -> NF s -> NF s'.
+  Proof. unfold NF. intros -> H. exact H. Qed.
+
+  Lemma NF_second ns f s : NF s -> NF (second_pass ns f s).
+  Proof.
+    intro H. unfold second_pass. destruct (has_err s); [exact H|].
+    destruct (unresolved false _); [destruct (unresolved true _)|];
+      unfold NF in *; cbn [serr set_err log_done add_links]; try discriminate. exact H.
+  Qed.
+
+  Lemma NF_classes ns rs : forall s, NF s -> NF (fold_left (fun s r => new_class ns r s) rs s).
+  Proof.
+    induction rs as [|r rs IH]; intros s H; cbn [fold_left]; [exact H|]. apply IH.
+    apply (NF_same s); [|exact H]. unfold new_class. destruct (has_err s); reflexivity.
+  Qed.
+
+  Lemma unl_spaces s s' : spaces s' = spaces s -> unl s' = unl s.
+  Proof. intro H. unfold unl, unl_in, has_ns. rewrite H. reflexivity. Qed.
+
+  Lemma term_import fuel stk cur imp t : TermSpec fuel -> NF t -> unl t <= fuel ->
+    NF (new_import (load fuel fs stk) stk cur imp t) /\ unl (new_import (load fuel fs stk) stk cur imp t) <= fuel.
+  Proof.
+    intros IH Hn Hu. unfold new_import. destruct (has_err t); [split; assumption|].
+    set (a := abs_import cur imp).
+    destruct (has_ns t a) eqn:Ha.
+    - set (s1 := if mem_str a stk then note_back cur a t else t).
+      assert (E : serr s1 = serr t /\ spaces s1 = spaces t) by (unfold s1; destruct (mem_str a stk); split; reflexivity).
+      destruct E as [E1 E2].
+      destruct (has_err s1); (split; [apply (NF_same t); [exact E1 | exact Hn] |]).
+      + pose proof (unl_spaces _ _ E2). lia.
+      + pose proof (unl_spaces (add_imported cur a s1) s1 eq_refl). pose proof (unl_spaces _ _ E2). lia.
+    - set (t1 := enter a t). set (s1 := load fuel fs stk a t1).
+      assert (Hmono : forall k, has_ns t k = true -> has_ns t1 k = true) by (intros k Hk; unfold t1; rewrite has_ns_enter, Hk; reflexivity).
+      pose proof (grow_load fs fuel stk a t1) as Hg. fold s1 in Hg.
+      assert (Hu1 : unl s1 <= fuel).
+      { pose proof (unl_mono fs t1 s1 (g_ns _ _ Hg)). pose proof (unl_mono fs t t1 Hmono). unfold unl in *. lia. }
+      assert (Hn1 : NF s1).
+      { unfold s1. destruct (aget a fs) as [f|] eqn:Hf.
+        - apply IH; [exact Hn|].
+          assert (Hlt : unl_in fs t1 < unl_in fs t).
+          { apply (unl_strict fs t t1 a f Hmono Hf Ha). unfold t1. rewrite has_ns_enter, str_eqb_refl. apply orb_true_r. }
+          unfold unl in *. lia.
+        - destruct fuel; cbn [load]; (destruct (has_err t1); [exact Hn|]); rewrite Hf; unfold NF; cbn [serr set_err]; discriminate. }
+      destruct (has_err s1); (split; [exact Hn1 | exact Hu1]).
+  Qed.
+
+  Lemma term_imports fuel stk cur imps : TermSpec fuel -> forall t, NF t -> unl t <= fuel ->
+    NF (fold_left (fun s imp => new_import (load fuel fs stk) stk cur imp s) imps t).
+  Proof.
+    intro IH. induction imps as [|i imps IHi]; intros t Hn Hu; cbn [fold_left]; [exact Hn|].
+    destruct (term_import fuel stk cur i t IH Hn Hu) as [A B]. apply IHi; assumption.
+  Qed.
+
+  Lemma load_terminates : forall fuel, TermSpec fuel.
+  Proof.
+    induction fuel as [|fuel IH]; intros stk ns s Hn Hu; [lia|]. cbn [load].
+    destruct (has_err s); [exact Hn|].
+    destruct (aget ns fs) as [f|]; [|unfold NF; cbn [serr set_err]; discriminate].
+    cbv zeta. apply NF_second. apply NF_classes. apply term_imports.
+    - intros stk' ns' s' Hn' Hu'. apply IH; assumption.
+    - apply (NF_same s); [reflexivity | exact Hn].
+    - pose proof (unl_spaces (log_load ns s) s eq_refl). lia.
+  Qed.
+
+  Lemma unl_le s : unl s <= length fs.
+  Proof.
+    unfold unl, unl_in. induction fs as [|p l IH]; cbn [filter length]; [lia|].
+    destruct (negb (has_ns s (fst p))); cbn [length]; lia.
+  Qed.
+
+  (* any import graph, cycles included: the load never runs out of fuel |fs|+1 *)
+  Lemma load_main_terminates main : serr (load_main fs main) <> Some EFuel.
+  Proof.
+    unfold load_main. apply load_terminates; [unfold NF; cbn; discriminate|].
+    pose proof (unl_le (enter main init)). lia.
+  Qed.
+End Term.
